@@ -175,8 +175,11 @@ func drawOpAt(t *rapid.T, m *machine, all []nodeInfo, n nodeInfo, forceKind stri
 		op.Key = rapid.SampledFrom(keyPool).Draw(t, "key")
 	case "mapremoveif", "mapfromraw":
 		op.Keys = rapid.SliceOfN(rapid.SampledFrom(keyPool), 0, 4).Draw(t, "keys")
+		if kind == "mapfromraw" {
+			op.By = rapid.SliceOfN(rapid.Byte(), 0, 3).Draw(t, "bytes")
+		}
 	case "vset":
-		op.Name = rapid.SampledFrom([]string{"SetStr", "SetInt", "SetDouble", "SetBool", "SetEmptyBytes", "SetEmptyMap", "SetEmptySlice", "FromRawNil", "FromRawList"}).Draw(t, "vset")
+		op.Name = rapid.SampledFrom([]string{"SetStr", "SetInt", "SetDouble", "SetBool", "SetEmptyBytes", "SetEmptyMap", "SetEmptySlice", "FromRawNil", "FromRawList", "FromRawBytes"}).Draw(t, "vset")
 		drawScalarFields(t, &op)
 		op.Ints = rapid.SliceOfN(rapid.Int64Range(0, 9), 0, 3).Draw(t, "ints")
 	case "pappend", "pfromraw":
